@@ -204,12 +204,13 @@ func skipInit(path string) bool {
 		"github.com/henrylee2cn/goutil/coarsetime", "github.com/henrylee2cn/goutil/graceful",
 		"github.com/henrylee2cn/goutil/pool", "flag", "testing", "unicode", "text/template", "html/template",
 		"go/token", "go/ast", "go/parser", "go/format", "go/printer", "go/scanner", "go/build",
-		"compress/flate", "compress/gzip", "hash/crc32", "crypto/md5", "crypto/sha1", "crypto/sha256", "crypto/sha512",
+		"crypto/md5", "crypto/sha1", "crypto/sha256", "crypto/sha512",
 		"crypto/aes", "crypto/cipher", "crypto/des", "crypto/elliptic", "crypto/ecdsa", "crypto/rsa", "crypto/ed25519",
 		"github.com/henrylee2cn/cfgo", "github.com/henrylee2cn/goutil/errors", "errors":
 		return true
 	}
-	if path == "net/http" || path == "net/textproto" || path == "net/url" || path == "vendor/golang.org/x/net/http/httpguts" || path == "net/http/internal/ascii" || path == "net/http/internal" {
+	if path == "compress/flate" || path == "compress/gzip" || path == "hash/crc32" || path == "hash" ||
+		path == "net/http" || path == "net/textproto" || path == "net/url" || path == "vendor/golang.org/x/net/http/httpguts" || path == "net/http/internal/ascii" || path == "net/http/internal" {
 		return false
 	}
 	for _, pre := range []string{"runtime/", "internal/", "crypto/", "vendor/", "golang.org/x/", "net/", "google.golang.org/", "github.com/golang/protobuf", "github.com/gogo/protobuf",
